@@ -477,5 +477,17 @@ def replay(ctx, payload):
         L, tr, fin, res, st = run_thread_case(c["rule"], c["n"], qs, segs)
         print("replay threads n=%d queries=%s schedule=%s -> statuses %s answers %s" % (c["n"], [q_wire(q) for q in qs], sched.seg_wire(segs), st, res))
         return all(s == "done" for s in st) and all(g == py_query(L, q) for q, g in zip(qs, res))
+    if c.get("kind") == "nested":
+        ms = c["ms"]
+        sets = [([tuple(x) if x[0] == "m" else ("p", x[1]) for x in a], [tuple(x) if x[0] == "m" else ("p", x[1]) for x in b]) for a, b in c["sets"]]
+        jobs = [(o, tuple(q)) for o, q in c["jobs"]]
+        segs = [tuple(x) for x in c["segs"]]
+        objs = build_nested(ms, sets)
+        nl = len(set(id(o._cache_lock) for o in objs))
+        tr, states, st, res, _ = sched.run_nested(objs, jobs, segs)
+        exp = expected_nested(ms, sets)
+        print("replay nested: %d cached objects, %d distinct lock objects; schedule %s -> statuses %s answers %s"
+              % (len(objs), nl, sched.seg_wire(segs), st, res))
+        return all(x == "done" for x in st) and all(g == py_query(exp[o], q) for (o, q), g in zip(jobs, res))
     print("replay: unsupported case")
     return False
